@@ -14,6 +14,22 @@ CLAIMED = {
             "Machine-checked proof of Sweby-region bounds, sign, symmetry, oddness, homogeneity and phi(a,a)=a (exact or with the explicit regularisation bound) for all (a,b) in any linearly ordered field; tied to the code by the literal translator and the L-lim correspondence over the full magnitude range.",
             "Trusted: Lean kernel + standard axioms, gen_tables.py, the transcription of the four closed-form limiters (validated by L-lim). Binary64 overflow/underflow is outside the theorems and is checked by the correspondence and the oracle sweep only.",
             "DESIGN.md 4/C12"),
+    'C02': ("Lean 4 theorems over the reals / any ordered field for every registered flux kernel + exact-Q correspondence of each kernel",
+            "Machine-checked proof of consistency F(W,W)=f(W), of the mirror law and of the upwind property for convection, Burgers, shallow water (centered, Rusanov, HLL), Euler (centered, centered-massflow, HLLE, HLLC) and the 2D Euler fluxes for both face directions (plus transposition and reduction to 1D), for all admissible states; tied to the code by L-flux-* over structured state pairs covering every branch.",
+            "Trusted: Lean kernel + standard axioms; transcription of the flux kernels (validated by L-flux-* on sampled inputs, tolerance 2^-30*scale); real-number semantics of sqrt. HLLC mirror law excludes the measure-zero set sM = 0 (stated hypothesis).",
+            "DESIGN.md 4/C02"),
+    'C16': ("Lean 4 theorems over the reals (Real.sqrt, Real.rpow) for every Euler boundary kernel + exact-Q correspondence",
+            "Machine-checked proof that each boundary kernel returns a state meeting its defining relations (totals, Riemann invariants, entropy, Rankine-Hugoniot, wall reflection) on either side and in 2D for any unit normal, and returns the interior state when its parameters are those of the state; tied to the code by L-bcker-* over all registered names, both directions / four normals.",
+            "Trusted: Lean kernel + standard axioms; transcription of the boundary kernels (validated by L-bcker-*); regime hypotheses explicit in each theorem; binary64 and rpow round-off outside the theorems.",
+            "DESIGN.md 4/C16"),
+    'C17': ("Lean 4 theorems (round trips over any field; roots/powers/logs over the reals) + exact-Q correspondence over every name in list_var()",
+            "Machine-checked proof of prim2cons/cons2prim round trips and of each named variable's definition for euler1d, euler2d and shallow water; the 1D Mach clause is partial (signed in the code: known finding K2 with a witness theorem). Tied to the code by L-prim-* (a registered name without a model counterpart is a disagreement).",
+            "Trusted: Lean kernel + standard axioms; transcription of the variable kernels (validated by L-prim-*); the nozzle massflow (times section) and one-value-per-cell clauses are checked by correspondence and sweep only.",
+            "DESIGN.md 4/C17"),
+    'C18': ("Lean 4 theorems (formula, positivity, bilinearity; explicit eigenpairs of the flux Jacobians) + exact-Q correspondence",
+            "Machine-checked proof that each time-step kernel equals CFL*dx/(|u|+c) on prim2cons of any admissible state, is positive and bilinear in (CFL, dx); spectral-radius link through explicit eigenpairs of the closed-form Jacobians (partial: matrices not proved to be the derivative; the oracle checks them numerically against the model's own consistent flux). Driver use of min / local array checked on the implementation.",
+            "Trusted: Lean kernel + standard axioms; transcription of the timestep kernels (validated by L-dt); sampling for the driver clause.",
+            "DESIGN.md 4/C18"),
 }
 
 NOT_YET = {}
